@@ -1271,3 +1271,185 @@ func escapeValidated(rc *core.RC, info *types.Info, n ast.Node, depth int) bool 
 	}
 	return false
 }
+
+// ---- C05.R8 the position at which a nested decoder stopped is never thrown away ----
+
+// Decoder.Decode returns the cursor behind what it consumed. A caller that discards it (the blank
+// identifier) cannot know whether the nested decoder read all of the text it was given: the quoted
+// text of a ,string field or of a non-string map key would be accepted with anything after the
+// value ("12x" as 12). Every call of a Decode method with the decoder signature must bind its first
+// result to a variable or return it.
+func c05r8(rc *core.RC) {
+	p := rc.P
+	n := 0
+	for _, pkg := range []string{"decoder", "json"} {
+		for _, fd := range p.Funcs(pkg) {
+			if fd.Body == nil {
+				continue
+			}
+			info := p.Info(fd)
+			fn := p.FuncName(fd)
+			k := 0
+			ast.Inspect(fd.Body, func(m ast.Node) bool {
+				var call *ast.CallExpr
+				var lhs []ast.Expr
+				switch x := m.(type) {
+				case *ast.AssignStmt:
+					if len(x.Rhs) == 1 {
+						call, _ = core.Unparen(x.Rhs[0]).(*ast.CallExpr)
+						lhs = x.Lhs
+					}
+				case *ast.ExprStmt:
+					call, _ = core.Unparen(x.X).(*ast.CallExpr)
+				}
+				if call == nil {
+					return true
+				}
+				sel, ok := core.Unparen(call.Fun).(*ast.SelectorExpr)
+				if !ok || sel.Sel.Name != "Decode" || len(call.Args) != 4 {
+					return true
+				}
+				sig, ok := info.Types[call.Fun].Type.(*types.Signature)
+				if !ok || sig.Results().Len() != 2 {
+					return true
+				}
+				if b, isBasic := sig.Results().At(0).Type().Underlying().(*types.Basic); !isBasic || b.Kind() != types.Int64 {
+					return true
+				}
+				n++
+				k++
+				rc.CallSites++
+				rc.Touch(fn)
+				key := fmt.Sprintf("%s/nested-decode#%d end-cursor-kept", fn, k)
+				kept := len(lhs) == 2
+				if kept {
+					if id, isIdent := lhs[0].(*ast.Ident); isIdent && id.Name == "_" {
+						kept = false
+					}
+				}
+				rc.Check(kept, key, call.Pos(), "the cursor returned by %s is bound to a variable (Go then requires it to be used): what follows the nested value can be examined", core.Src(p.Fset, call.Fun))
+				return true
+			})
+		}
+	}
+	if n < 12 {
+		rc.Unknown("decoder/nested-decode-calls", token.NoPos, "found %d assigned Decode calls (15 confirmed)", n)
+	}
+}
+
+// ---- C05.R9 an object key is read only where the input has a quote ----
+
+// The decoders used for map keys (string, ,string-wrapped numbers, TextUnmarshaler) are value
+// decoders: they accept the literal null. Where a map decoder hands the input to its key decoder,
+// the byte at the cursor must have been tested to be a quote, or `{null:1}` is a valid document.
+func c05r9(rc *core.RC) {
+	p := rc.P
+	n := 0
+	for _, fd := range p.Funcs("decoder") {
+		if fd.Body == nil {
+			continue
+		}
+		info := p.Info(fd)
+		fn := p.FuncName(fd)
+		k := 0
+		done := map[*ast.CallExpr]bool{}
+		ast.Inspect(fd.Body, func(m ast.Node) bool {
+			var call *ast.CallExpr
+			var stmt ast.Stmt
+			switch x := m.(type) {
+			case *ast.AssignStmt:
+				if len(x.Rhs) == 1 {
+					call, _ = core.Unparen(x.Rhs[0]).(*ast.CallExpr)
+					stmt = x
+				}
+			case *ast.IfStmt:
+				if as, ok := x.Init.(*ast.AssignStmt); ok && len(as.Rhs) == 1 {
+					call, _ = core.Unparen(as.Rhs[0]).(*ast.CallExpr)
+					stmt = x
+				}
+			}
+			if call == nil || done[call] {
+				return true
+			}
+			done[call] = true
+			sel, ok := core.Unparen(call.Fun).(*ast.SelectorExpr)
+			if !ok {
+				return true
+			}
+			switch sel.Sel.Name {
+			case "Decode", "DecodeStream", "decodeByte", "decodeStreamByte":
+			default:
+				return true
+			}
+			// the receiver is the key decoder of a map decoder: the field itself or a local set from it
+			recv := core.Unparen(sel.X)
+			isKeyDec := false
+			if f := core.FieldOf(info, recv); f != nil && f.Name() == "keyDecoder" {
+				isKeyDec = true
+			} else if id, isIdent := recv.(*ast.Ident); isIdent {
+				def := core.ResolveSingleDef(info, fd.Body, id)
+				// v, ok := d.keyDecoder.(*stringDecoder)
+				obj := info.Uses[id]
+				ast.Inspect(fd.Body, func(y ast.Node) bool {
+					if as, isAssign := y.(*ast.AssignStmt); isAssign && len(as.Lhs) == 2 && len(as.Rhs) == 1 && obj != nil && core.ObjOf(info, as.Lhs[0]) == obj {
+						def = as.Rhs[0]
+					}
+					return true
+				})
+				if ta, isAssert := core.Unparen(def).(*ast.TypeAssertExpr); isAssert {
+					def = ta.X
+				}
+				if f := core.FieldOf(info, def); f != nil && f.Name() == "keyDecoder" {
+					isKeyDec = true
+				}
+			}
+			if !isKeyDec {
+				return true
+			}
+			n++
+			k++
+			rc.CallSites++
+			rc.Touch(fn)
+			key := fmt.Sprintf("%s/key-decode#%d quote-tested", fn, k)
+			rc.Check(quoteGuardBefore(info, fd.Body, stmt), key, call.Pos(), "the key decoder is called only after a test that returns unless the byte at the cursor is '\"'")
+			return true
+		})
+	}
+	if n < 3 {
+		rc.Unknown("decoder/map-key-decodes", token.NoPos, "found %d calls of a map's key decoder (3 confirmed)", n)
+	}
+}
+
+// quoteGuardBefore: an earlier statement of the same block is `if <byte> != '"' { …; return … }`.
+func quoteGuardBefore(info *types.Info, body *ast.BlockStmt, stmt ast.Stmt) bool {
+	path := core.PathTo(body, stmt)
+	if len(path) < 2 {
+		return false
+	}
+	blk, ok := path[len(path)-2].(*ast.BlockStmt)
+	if !ok {
+		return false
+	}
+	for _, st := range blk.List {
+		if st == stmt {
+			return false
+		}
+		ifs, isIf := st.(*ast.IfStmt)
+		if !isIf || len(ifs.Body.List) == 0 {
+			continue
+		}
+		if _, rets := ifs.Body.List[len(ifs.Body.List)-1].(*ast.ReturnStmt); !rets {
+			continue
+		}
+		be, isBin := core.Unparen(ifs.Cond).(*ast.BinaryExpr)
+		if !isBin || be.Op != token.NEQ {
+			continue
+		}
+		if v, isConst := core.ConstInt(info, be.Y); isConst && v == '"' {
+			if tv, has := info.Types[be.X]; has && isByte(tv.Type) {
+				return true
+			}
+		}
+	}
+	return false
+}
